@@ -513,7 +513,8 @@ func emptinessTest(atom ssa.Value, truth bool, e ssa.Value) (empty, ok bool) {
 }
 
 // isExistsAccumulator: a boolean that starts false before a loop and can only be switched on
-// inside it (`some = some || x`, `if x { some = true }`): "some element satisfies x".
+// inside it (`some = some || x`, `if x { some = true }`, `if !x { continue }; some = true`):
+// "some element satisfies x".
 func isExistsAccumulator(v ssa.Value) bool {
 	phi, ok := v.(*ssa.Phi)
 	if !ok || len(naturalLoop(phi.Block())) == 0 {
@@ -539,6 +540,12 @@ func isExistsAccumulator(v ssa.Value) bool {
 		// the value carried round the loop: the accumulator itself, or a join that can only
 		// add `true`
 		if e == ssa.Value(phi) {
+			continue
+		}
+		// switched on in a round that goes straight back to the head of the loop (the other
+		// rounds leave the loop body early, with `continue`, and carry the accumulator itself)
+		if k, ok := e.(*ssa.Const); ok && k.Value != nil && k.Value.Kind() == constant.Bool && constant.BoolVal(k.Value) {
+			carried = true
 			continue
 		}
 		j, ok := e.(*ssa.Phi)
